@@ -46,7 +46,7 @@ theorem queue_by_holder {ga : Nat → Int} {s s' : S} {t : Tid} {a : Act} (hi : 
   have hw := hi.k_q_w
   cases hs
   case append i b hpc => exact (hq i).2 (by simp [hpc, SPc.holdsQ])
-  case wkPop b q hpc hq' => exact hw.2 (by simp [hpc, WPc.holdsQ])
+  case wkPop b hpc hq' => exact hw.2 (by simp [hpc, WPc.holdsQ])
   case wkWait hpc hq' => exact hw.2 (by simp [hpc, WPc.holdsQ])
   all_goals (simp [Act.touchesQueue, publish, notifyB] at h)
 
